@@ -243,12 +243,19 @@ def check_kg(case):
         fails.append(fail('kG0 is not linear in (Fc, P, T)', sig=None, case=case))
     cfg = cfg_of(base)
     cfg.update(Fc=loads[3][0], P=loads[3][1], T=loads[3][2])
-    cc = rs.shell_of(cfg)
-    cc._calc_linear_matrices(combined_load_case=1, silent=True)
-    tot = cc.kG0_Fc.toarray() + cc.kG0_P.toarray() + cc.kG0_T.toarray()
-    if np.abs(tot - G[loads[3]]).max() > 1e-11 * sc:
-        fails.append(fail('combined-load split of kG0 does not add up to the combined matrix', sig=None, case=case))
-    return dict(fails=fails, execs=6, transitions=6, nontrivial=1)
+    for clc in (1, 2, 3):
+        cc = rs.shell_of(cfg)
+        cc._calc_linear_matrices(combined_load_case=clc, silent=True)
+        parts = dict(Fc=cc.kG0_Fc.toarray(), P=cc.kG0_P.toarray(), T=cc.kG0_T.toarray())
+        tot = parts['Fc'] + parts['P'] + parts['T']
+        if np.abs(tot - G[loads[3]]).max() > 1e-11 * sc:
+            fails.append(fail('combined-load split of kG0 does not add up to the combined matrix', sig=None, case=case, combined_load_case=clc))
+        # each part is the geometric matrix of its own load alone
+        for nm, single in (('Fc', G[loads[0]]), ('P', G[loads[1]]), ('T', G[loads[2]])):
+            if np.abs(parts[nm] - single).max() > 1e-11 * sc:
+                fails.append(fail('part kG0_%s of the combined-load split is not the geometric matrix of that load alone' % nm, sig=None, case=case,
+                                  combined_load_case=clc))
+    return dict(fails=fails, execs=8, transitions=8, nontrivial=1)
 
 
 def check_iso(case):
